@@ -60,6 +60,11 @@ inductive ArrOp where
   | arrow | darrow | seq | where_ | orderby | tupmap | sum | max | min
   deriving Inhabited, DecidableEq
 
+/-- the other prefix operators of the grammar's unop level: `+` (NewPosExpr), `!` (NewNotExpr), `^` (NewPowerSetExpr) -/
+inductive UnOp where
+  | pos | not | pset
+  deriving Inhabited, DecidableEq
+
 /-- `rel` is a relation literal `{|n1, n2| (c1, c2), …}`: a spine of rows, each row a `tup` collection that carries
 the heading's names (its denotation is the set of those tuples, whatever the order of the heading) -/
 inductive Coll where
@@ -75,6 +80,7 @@ inductive Expr where
   | fn (p : Pat) (b : Expr)                            -- *Function
   | paren (e : Expr)                                   -- ExprExpr
   | neg (e : Expr)                                     -- UnaryExpr "-"
+  | un (op : UnOp) (e : Expr)                          -- UnaryExpr "+", "!", "^"
   | dot (e : Expr) (attr : String)                     -- DotExpr
   | bin (op : BinOp) (a b : Expr)                      -- BinExpr / CompareExpr
   | and_ (a b : Expr)                                  -- AndExpr
@@ -101,6 +107,7 @@ inductive Ast where
   | fn (p : Pat) (b : Ast)                             -- \p b
   | call (f a : Ast)                                   -- f(a)
   | neg (e : Ast)
+  | un (op : UnOp) (e : Ast)                           -- +e  !e  ^e
   | dot (e : Ast) (attr : String)                      -- e.attr
   | bin (op : BinOp) (a b : Ast)
   | and_ (a b : Ast)
@@ -257,10 +264,37 @@ end
 
 /-! ## Operators on values -/
 
-/-- `Number.Negate`; negating anything else builds an `@neg` tuple (outside the model) -/
+/-- tuples that Go specialises (`(@: i, @item: x)` …): their `Negate` negates the components (outside the model) -/
+def specialPair (as : List (String × V)) : Bool :=
+  match as with
+  | [("@", _), (n, _)] => n == "@item" || n == "@char" || n == "@value" || n == "@byte"
+  | _ => false
+
+/-- `Value.Negate`: a number is negated arithmetically; `(@neg: x)` is `x`; the empty tuple is itself;
+every other tuple and every set `x` becomes `(@neg: x)` (so negation is an involution only on numbers
+and on values that are not themselves `@neg` wrappers) -/
 def negV : Val → Res Val
   | .data (.num n) => mkNum (-n)
-  | _ => .unsup
+  | .data (.tup [("@neg", x)]) => .ok (.data x)
+  | .data (.tup []) => .ok (.data (.tup []))
+  | .data (.tup as) => if specialPair as then .unsup else .ok (.data (.tup [("@neg", .tup as)]))
+  | .data (.set xs) => .ok (.data (.tup [("@neg", .set xs)]))
+  | .clo _ _ _ => .unsup
+
+def sublists : List V → List (List V)
+  | [] => [[]]
+  | x :: r => sublists r ++ (sublists r).map (x :: ·)
+
+/-- `+x` is x; `!x` is the negated truth value; `^s` is the power set of a (small) set -/
+def unV (op : UnOp) (v : Val) : Res Val :=
+  match op with
+  | .pos => .ok v
+  | .not => .ok (.data (V.bool (!isTrue v)))
+  | .pset =>
+    match v with
+    | .data (.set xs) => if xs.length ≤ 4 then .ok (.data (V.mkSet ((sublists xs).map V.set))) else .unsup
+    | .data _ => .err
+    | .clo _ _ _ => .unsup
 
 /-- `DotExpr.Eval`: attribute of a tuple, or of the sole tuple member of a set (deprecated but accepted);
 everything else is an error (`&name` method attributes are outside the model) -/
@@ -400,6 +434,7 @@ def evalE (call : Caller) : Expr → Env → Res Val
   | .fn p b, env => .ok (.clo env p b)
   | .paren e, env => evalE call e env
   | .neg e, env => evalE call e env >>= negV
+  | .un op e, env => evalE call e env >>= unV op
   | .dot e name, env => evalE call e env >>= dotV name
   | .bin op a b, env =>
     evalE call a env >>= fun va =>
@@ -566,6 +601,7 @@ def compileG (fold poison : Bool) : Ast → Expr
   | .fn p b => .fn p (compileG fold poison b)
   | .call f a => .bin .call (compileG fold poison f) (compileG fold poison a)
   | .neg e => .neg (compileG fold poison e)
+  | .un op e => .un op (compileG fold poison e)
   | .dot e name => .dot (compileG fold poison e) name
   | .bin op a b => .bin op (compileG fold poison a) (compileG fold poison b)
   | .and_ a b => .and_ (compileG fold poison a) (compileG fold poison b)
@@ -586,6 +622,7 @@ def poisoned : Expr → Bool
   | .fn _ b => poisoned b
   | .paren e => poisoned e
   | .neg e => poisoned e
+  | .un _ e => poisoned e
   | .dot e _ => poisoned e
   | .bin _ a b => poisoned a || poisoned b
   | .and_ a b => poisoned a || poisoned b
